@@ -243,6 +243,22 @@ def precision(bits):
         config.precision = 64 if old == np.float64 else 32
 
 
+def cold_start(*module_names):
+    """clear every functools.lru_cache of the named prysm modules (default: the polynomial modules) through the public cache_clear(): the state of a
+    process that has not evaluated anything yet.  Used for histories "a session that starts under the other configuration on a cold cache"."""
+    import importlib
+    import sys
+    names = module_names or [m for m in list(sys.modules) if m.startswith('prysm.polynomials')]
+    n = 0
+    for name in names:
+        mod = sys.modules.get(name) or importlib.import_module(name)
+        for v in list(vars(mod).values()):
+            if callable(getattr(v, 'cache_clear', None)) and callable(getattr(v, 'cache_info', None)):
+                v.cache_clear()
+                n += 1
+    return n
+
+
 FFT_BACKENDS = ['scipy', 'scipy', 'scipy', 'numpy', 'transforms-only']
 fft_backends = st.sampled_from(FFT_BACKENDS)
 
